@@ -1,6 +1,7 @@
 package c02
 
 import (
+	"strconv"
 	"testing"
 
 	"verif/harness/kit"
@@ -21,6 +22,12 @@ func TestSweep(t *testing.T) {
 	// roots of more than 2^24 samples (a count held in a float32 or a 24-bit field would be off)
 	for _, sh := range [][2]int{{1, 1<<24 + 9}, {2, 1<<23 + 5}, {3, 5592407}} {
 		Oracle.One(t, env, rec, "sweep", &Case{T: "int8", C: sh[0], Huge: sh[1]})
+	}
+	// more than 2^31 (and 2^32) samples: 2 to 4 GiB of int8 that stay virtual, only a few samples are touched
+	if strconv.IntSize == 64 {
+		one := int64(1)
+		Oracle.One(t, env, rec, "sweep", &Case{T: "int8", C: 2, Huge: int(one<<30 + 4)})
+		Oracle.One(t, env, rec, "sweep", &Case{T: "uint8", C: 1, Huge: int(one<<32 + 3)})
 	}
 	if env.Thorough() {
 		Oracle.One(t, env, rec, "sweep", &Case{T: "int16", C: 2, Huge: 1<<24 + 3})
